@@ -54,7 +54,7 @@ CHECKS["C09"] = ("runtime monitor: diagnostic count on unannotated real-world co
   "precondition scanner of the harness; module-cache corpora are analysed with -test=false because their test dependencies are not in the offline cache", "DESIGN.md §3 C09")
 
 CHECKS["C11"] = ("runtime monitor + Go race detector: diagnostic sets across schedules (repeats, sequential, GOMAXPROCS, argument order, perturbed in-process schedules) must be identical; race-detector builds must report zero DATA RACE blocks",
-  "Generated modules with @ignore comments in every package are analysed under 3 configurations (incl. non-empty exclude-checks) and ~13 schedules each: 3 repeats, -debug=p, GOMAXPROCS 1/4, 2 argument permutations, the in-process driver with PRNG yields/sleeps at every Analyzer.Run entry (one of them under -race), the -race binary, and 4 concurrent Analyze calls in one -race process; all (file,line,col,analyzer,message) sets must equal the first parallel run, and no DATA RACE block may be logged (GORACE log_path, blocks counted and de-duplicated by top frames). Evidence records overlapping actions and distinct completion orders actually seen.",
+  "Generated modules with @ignore comments in every package are analysed under 3 configurations (incl. non-empty exclude-checks) and ~13 schedules each: 3 repeats, -debug=p, GOMAXPROCS 1/4, 2 argument permutations, the in-process driver with PRNG yields/sleeps at every Analyzer.Run entry (one of them under -race), the -race binary, and 4 concurrent Analyze calls in one -race process; all (file,line,col,analyzer,message) sets must equal the first parallel run, and no DATA RACE block may be logged (GORACE log_path, blocks counted and de-duplicated by top frames). Evidence records overlapping actions and distinct completion orders actually seen. In addition 4 fixed two-package modules in which a //line directive maps a diagnostic of one package into a file of an unrelated one: the per-package diagnostics of 7 joint runs (both listing orders, sequential and parallel, ./...) must equal those of the solo runs.",
   "the race detector only sees code the workloads execute concurrently; vet-driver schedules are process-level and not perturbed", "DESIGN.md §3 C11")
 
 CHECKS["C10"] = ("runtime termination monitor: exit status / stderr / analyzer errors / CPU time of the real binary and of go vet -vettool on annotation-injected real-world code, exotic generated programs and fuzzed comments",
